@@ -655,3 +655,102 @@ def run_replay(module_name, path):
     print("VIOLATION property=%s replay=%s" % (prop, path))
     print("  bucket=%s\n  detail=%s" % (bucket, info["detail"][:800]))
     return EXIT_VIOLATION
+
+
+# ----------------------------------------------------------------------------
+# arguments handed to the library stay what the caller passed
+# ----------------------------------------------------------------------------
+class ArgGuard(object):
+    """Watch arrays handed to library calls.  A numpy library function that
+    changes its caller's array (a '*=' on an argument, a conjugate() that
+    returns the same object, an in-place normalisation of a shared sequence)
+    silently corrupts the caller's next use of it, so every property that is
+    judged against 'the input' is judged against the array the caller still
+    holds.  ``verify`` raises Violation('argument_modified') otherwise."""
+    def __init__(self, tags=None):
+        self.tags = dict(tags or {})
+        self.items = []
+
+    def watch(self, name, arr):
+        import numpy as np
+        if isinstance(arr, np.ndarray):
+            if arr.dtype == object:
+                for i, a in enumerate(arr.reshape(-1)):
+                    self.watch("%s[%d]" % (name, i), a)
+            else:
+                self.items.append((name, arr, arr.copy()))
+        elif isinstance(arr, (list, tuple)):
+            for i, a in enumerate(arr):
+                self.watch("%s[%d]" % (name, i), a)
+        return arr
+
+    def verify(self, where=""):
+        import numpy as np
+        for name, arr, saved in self.items:
+            same = arr.shape == saved.shape and (
+                np.array_equal(arr, saved) or
+                (arr.dtype.kind in "fc" and
+                 np.array_equal(np.isnan(arr), np.isnan(saved)) and
+                 np.array_equal(np.nan_to_num(arr), np.nan_to_num(saved))))
+            if not same:
+                raise Violation(
+                    "argument_modified", "the library changed the array "
+                    "'%s' handed to it%s (shape %r -> %r)" %
+                    (name, " in " + where if where else "", saved.shape,
+                     arr.shape), dict(self.tags, argument=name))
+
+
+class GuardedCalls(object):
+    """Context manager: while active, the listed library callables verify
+    that a DIRECT call from the checking code (module name starting with
+    'vpbt') leaves every ndarray argument unchanged (see ArgGuard).  Calls
+    the library makes internally are not touched.  targets: iterable of
+    (owner, attribute name) with owner a module or a class."""
+    def __init__(self, targets, tags=None):
+        self.targets = list(targets)
+        self.tags = dict(tags or {})
+        self.saved = []
+
+    def _wrap(self, fn, label):
+        tags = self.tags
+
+        def wrapper(*args, **kwargs):
+            caller = sys._getframe(1).f_globals.get("__name__", "")
+            if not caller.startswith("vpbt"):
+                return fn(*args, **kwargs)
+            g = ArgGuard(tags)
+            for i, a in enumerate(args):
+                g.watch("argument %d" % i, a)
+            for k, a in kwargs.items():
+                g.watch("argument %s" % k, a)
+            out = fn(*args, **kwargs)
+            g.verify(label)
+            return out
+        wrapper.__name__ = getattr(fn, "__name__", "wrapped")
+        wrapper.__doc__ = getattr(fn, "__doc__", None)
+        return wrapper
+
+    def __enter__(self):
+        import inspect
+        for owner, name in self.targets:
+            raw = owner.__dict__.get(name) if inspect.isclass(owner) \
+                else getattr(owner, name, None)
+            if raw is None:
+                # inherited attribute / renamed function: nothing to wrap
+                continue
+            label = "%s.%s" % (getattr(owner, "__name__", owner), name)
+            if isinstance(raw, staticmethod):
+                new = staticmethod(self._wrap(raw.__func__, label))
+            elif isinstance(raw, classmethod) or isinstance(raw, property):
+                continue
+            else:
+                new = self._wrap(raw, label)
+            self.saved.append((owner, name, raw))
+            setattr(owner, name, new)
+        return self
+
+    def __exit__(self, *exc):
+        for owner, name, raw in reversed(self.saved):
+            setattr(owner, name, raw)
+        self.saved = []
+        return False
